@@ -60,7 +60,7 @@ func main() {
 	}
 	run := evid.New("C18", "exploration")
 	run.MaxVio = 24
-	run.Rule("start-up: side {server, client} x every MaxPacketSize 1..1480 and every WriteQueueSize 0..1025 (all values, one Start+Close each). " +
+	run.Rule("start-up: side {server, client} x every MaxPacketSize 1..1480 and every WriteQueueSize 0..1025 (all values, one Start+Close each); the MaxPacketSize sweep is repeated for client {Protocol TCP, UDP, multicast; Tunnel HTTP, WebSocket; rtsps} and server {without UDP, with TLS}. " +
 		"wire: configuration = MaxPacketSize menu (quick {100, 1472}; thorough {40, 64, 65, 99, 100, 101, 576, 577, 1000, 1001, 1470, 1471, 1472} and 24 plain only) x {udp, tcp interleaved} x {plain, srtp, srtp with 4-byte MKI (client side, reached by a scripted 463 reply)}; " +
 		"entry points = ServerStream.WritePacketRTP/RTCP, ServerSession.WritePacketRTP/RTCP (play session), ServerSession.WritePacketRTCP (record session), " +
 		"Client.WritePacketRTP/RTCP (recording), Client.WritePacketRTCP (playing), Client.WritePacketRTP (back channel while playing); " +
@@ -117,17 +117,23 @@ func main() {
 
 	var jobs []any
 	var descr []string
-	chunk := func(side, field string, lo, hi, parts int) {
+	chunk := func(side, variant, field string, lo, hi, parts int) {
 		n := hi - lo + 1
 		for p := 0; p < parts; p++ {
 			a, b := lo+p*n/parts, lo+(p+1)*n/parts-1
-			jobs = append(jobs, Job{Start: &StartJob{side, field, a, b}})
-			descr = append(descr, fmt.Sprintf("start %s %s %d..%d", side, field, a, b))
+			jobs = append(jobs, Job{Start: &StartJob{side, field, a, b, variant}})
+			descr = append(descr, fmt.Sprintf("start %s/%s %s %d..%d", side, variant, field, a, b))
 		}
 	}
+	for _, v := range []string{"tcp", "udp", "mcast", "http-tunnel", "ws-tunnel", "rtsps"} {
+		chunk("client", v, "max-packet-size", 1, 1480, 1)
+	}
+	for _, v := range []string{"noudp", "tls"} {
+		chunk("server", v, "max-packet-size", 1, 1480, 1)
+	}
 	for _, side := range []string{"server", "client"} {
-		chunk(side, "max-packet-size", 1, 1480, 3)
-		chunk(side, "write-queue-size", 0, 1025, 2)
+		chunk(side, "", "max-packet-size", 1, 1480, 3)
+		chunk(side, "", "write-queue-size", 0, 1025, 2)
 	}
 	maxes := []int{100, 1472}
 	plainOnly := []int{}
